@@ -152,19 +152,26 @@ def dm_case(rng, nmax=7, mmax=5, nmin=1, mmin=1, modes=VALUE_MODES, positive=Fal
         "tags": tags,
     }
     if int_dtypes and rng.random() < int_dtypes:
-        # integer-typed criteria: all of them, or some of them next to float (possibly fractional) ones.  A criterion
-        # that becomes integer-typed gets integral values first
-        allint = rng.random() < 0.4
-        dts = ["int64" if allint or rng.random() < 0.5 else "float64" for _ in range(m)]
-        if "int64" not in dts:
-            dts[rng.randrange(m)] = "int64"
-        for j in range(m):
-            if dts[j] == "int64":
-                for r in mtx:
-                    v = float(round(r[j]))
-                    r[j] = (1.0 if positive and v < 1 else v)
-        c["dtypes"] = dts
-        c["tags"] = list(tags) + ["int_dtypes"]
+        integerise(rng, c, positive)
+    return c
+
+
+def integerise(rng, c, positive=False):
+    """Integer-typed criteria: all of them, or some of them next to float (possibly fractional) ones.  A criterion
+    that becomes integer-typed gets integral values first."""
+    mtx = c["matrix"]
+    m = len(c["weights"])
+    allint = rng.random() < 0.4
+    dts = ["int64" if allint or rng.random() < 0.5 else "float64" for _ in range(m)]
+    if "int64" not in dts:
+        dts[rng.randrange(m)] = "int64"
+    for j in range(m):
+        if dts[j] == "int64":
+            for r in mtx:
+                v = float(round(r[j]))
+                r[j] = (1.0 if positive and v < 1 else v)
+    c["dtypes"] = dts
+    c["tags"] = list(c.get("tags", [])) + ["int_dtypes"]
     return c
 
 
